@@ -347,3 +347,39 @@ Definition accepted_pstate (c : cfg) (v : pstate) : Prop :=
 
 Definition refused_result (r : result) : bool :=
   match r with RFull | RTooLarge | RInvalid => true | _ => false end.
+
+(* ---- round 3: shapes of the stuck quiescent states, and the termination measure ------------------------ *)
+(* somebody is still inside Offer *)
+Definition stuck (s : st) : Prop := exists p v, pget p (prods s) = Some v /\ forall r, v <> PRet r.
+
+(* finding F3: a Signal is blocked on the full channel holding the mutex, nobody is inside the select any more,
+   waiting + 2 producers have left the select on their context and wait for the mutex *)
+Definition f3_shape (s : st) : Prop :=
+  (exists k, lock s = BSend k) /\ tok s = true /\ cnt is_insel (prods s) = 0 /\
+  cnt is_leftctx (prods s) = waiting s + 2.
+
+(* finding S1 (and its after-effect, the stolen wake-up): the mutex is free, the queue is empty and idle, no
+   token is pending, and a producer whose context has not ended sits inside the select *)
+Definition s1_shape (s : st) : Prop :=
+  lock s = Free /\ size s = 0 /\ items s = [] /\ inflight s = [] /\ tok s = false /\
+  exists p sz, pget p (prods s) = Some (PInSelect sz) /\ ~ In p (cancelled s).
+
+Definition is_await (v : pstate) : bool := match v with PAwait => true | _ => false end.
+
+(* every internal step of a running queue strictly decreases this natural-number measure *)
+Definition mu (s : st) : Z :=
+  6 * Z.of_nat (length (items s)) + 3 * Z.of_nat (length (inflight s)) +
+  7 * cnt is_insel (prods s) + 8 * cnt is_lefttok (prods s) + cnt is_leftctx (prods s) +
+  cnt is_await (prods s) + 2 * (b2z (tok s) + sb s).
+
+Definition internal_run (ls : list label) : Prop := Forall (fun l => internal l = true) ls.
+
+(* what has become of a producer that was once parked by block_on_overflow *)
+Definition fate (p : nat) (s : st) : Prop :=
+  match pget p (prods s) with
+  | Some (PInSelect _) | Some (PLeftTok _) => True
+  | Some (PLeftCtx _) => In p (cancelled s)
+  | Some PAwait | Some (PRet ROk) | Some (PRet (RRes _)) => In p (acc s)
+  | Some (PRet RCtx) => In p (cancelled s)
+  | _ => False
+  end.
